@@ -315,3 +315,11 @@ def check_dict_dir(prog: Program, res: Result) -> None:
     else:
         res.unrecognised("R-DICT-DIR", inst, mk.loc(),
                          "atom creation loop not recognised")
+    # the perception receives atom_types and connectivity_matrix() side by
+    # side: the matrix must be numbered by the atoms view (rule of C09)
+    from . import C09
+    from .common import merge_rules
+    tmp = Result(res.prop)
+    C09.check_matrix_view(prog, tmp)
+    merge_rules(res, tmp, ("R-VIEW-AGREE",))
+
